@@ -32,6 +32,7 @@ type Decision struct {
 }
 
 type Violation struct {
+	RandInts []string // model values of crypto/rand.Int results, in call order
 	Clock  []string // model values of the harness clock readings (ns since year 1)
 	Kind   string // "assert", "index", "slice", "nil", "alloc", "panic", "divzero", "typeassert", "unwind", "race", "deadlock"
 	Site   string // human readable
@@ -160,7 +161,9 @@ type Run struct {
 	injApps    []injApp
 	syncMaps   map[string]*MapV
 	clockLog   []*Term
+	randInts   []*Term
 	onceDone   map[string]bool
+	curScript  *scripted
 	guard      *Term
 	merges     int
 	predDepth  int
@@ -226,6 +229,9 @@ func (r *Run) report(kind string, site Site, msg string) {
 	v.Stubs = r.evalStubLog()
 	for _, c := range r.clockLog {
 		v.Clock = append(v.Clock, r.sol.Value(c).String())
+	}
+	for _, c := range r.randInts {
+		v.RandInts = append(v.RandInts, r.sol.Value(c).String())
 	}
 	r.viol = append(r.viol, v)
 }
@@ -1000,6 +1006,20 @@ func (r *Run) exec(fr *Frame, ins ssa.Instruction) {
 		n := int(r.concretise(lt, "make len at "+site.String()))
 		c := int(r.concretise(ct, "make cap at "+site.String()))
 		fr.set(x, r.makeSlice(et, n, c))
+	case *ssa.MakeChan:
+		// minimal channels: a buffer; a send that would block has no modelled receiver
+		n := int(r.concretise(r.toInt64(r.get(fr, x.Size).(*Term), x.Size.Type()), "chan size"))
+		fr.set(x, &PtrV{obj: r.newObj(types.Typ[types.Int], &ChanV{cap: n}, "chan")})
+	case *ssa.Send:
+		cv := r.get(fr, x.Chan).(*PtrV)
+		if cv.obj == nil {
+			endPath("engine", "send on nil channel (blocks forever)")
+		}
+		ch := cv.obj.val.(*ChanV)
+		if len(ch.buf) >= ch.cap {
+			endPath("engine", "send on a full/unbuffered channel: no receiver is modelled")
+		}
+		ch.buf = append(ch.buf, r.get(fr, x.X))
 	case *ssa.MakeMap:
 		r.nextObj++
 		fr.set(x, &MapV{id: r.nextObj, typ: x.Type().Underlying().(*types.Map)})
